@@ -4,11 +4,16 @@
   `sumTargets` / `sumDuties` model `_sum_subzone_targets`; `siteTargets` the total-site read-out.
   Proved: the total-process record is the field-wise sum; the total-site hot (cold) target never
   exceeds the summed hot (cold) utility duties — hence, with allocation closure (C03), never the
-  sum of the zones' targets; the heat-recovery formula.  The LOWER bound (total-site targets are
-  not below the site's own direct-integration targets) is NOT a theorem for the code: it needs
-  feasibility of every zone's utility profile (C04) and is decided by the oracle.
+  sum of the zones' targets; the heat-recovery formula; and the LOWER bound (total-site targets are
+  not below the site's own direct-integration targets) for every site whose zones' utility
+  profiles are feasible (C04: above every temperature the net utility heat covers the zone's net
+  deficit) and close (C03) — `ts_ge_di_of_feasible`, with `feasible_sum` carrying the hypothesis
+  from the zones to the site.  Whether the code's zone profiles ARE feasible is C04's question; a
+  change that breaks it (seeded C09-glide-cap-max) falsifies the hypothesis, not the theorem, and
+  is found by the oracle.
 -/
 import OPModel.Properties.C02
+import OPModel.Proofs.DeficitAll
 
 namespace OP.C09
 open OP
@@ -73,6 +78,101 @@ theorem ts_le_sum (tol w : Rat) (hw : 0 ≤ w) (htw : tol ≤ w) (hotU coldU : L
   have h1 := (aboveAll_bounds hotU x hh').2
   have h2 := (aboveAll_bounds coldU x hc').1
   linarith
+
+/-- On every row of the utility grid the total-site hot target covers the net utility deficit
+    (hot utility heat used above the row minus cold utility heat raised above it). -/
+theorem ts_qh_grid (tol w : Rat) (hw : 0 ≤ w) (htw : tol ≤ w) (hotU coldU : List Seg) (tz : Targets)
+    (t0 : Rat) (rest : List Rat)
+    (hr : InRange (coldU ++ hotU) ((t0 :: rest).getLast (List.cons_ne_nil _ _)) t0)
+    (hch : ChainOK w (coldU ++ hotU) t0 rest) :
+    ∃ t, siteTargets tol w (t0 :: rest) hotU coldU tz = .ok t ∧
+      t.qh - t.qc = total hotU - total coldU ∧
+      ∀ x ∈ t0 :: rest, deficit coldU hotU x ≤ t.qh := by
+  have hs : ∀ s ∈ coldU ++ hotU, s.lo ≤ s.hi := fun s h => (hr s h).1
+  have hhi_h : ∀ s ∈ hotU, s.hi ≤ t0 := fun s h => (hr s (List.mem_append_right _ h)).2.1
+  have hhi_c : ∀ s ∈ coldU, s.hi ≤ t0 := fun s h => (hr s (List.mem_append_left _ h)).2.1
+  obtain ⟨t, ht, hbal, _, _, _⟩ := C02.ts_balance tol w hw htw hotU coldU tz t0 rest hr hch
+  obtain ⟨pt, hpt, hc⟩ := problemTable_closed tol w hw htw hotU coldU t0 rest hs hch
+  obtain ⟨m, hm⟩ : ∃ m, listMax pt.hNet = some m := by rw [hc.hNet]; exact ⟨_, rfl⟩
+  obtain ⟨_, hle⟩ := listMax_spec pt.hNet m hm
+  have hsh : ∀ s ∈ hotU, s.lo ≤ s.hi := fun s h => hs s (List.mem_append_right _ h)
+  have hsc : ∀ s ∈ coldU, s.lo ≤ s.hi := fun s h => hs s (List.mem_append_left _ h)
+  have z : netC hotU coldU t0 t0 = 0 := by
+    unfold netC; rw [content_self coldU t0 hsc, content_self hotU t0 hsh]; ring
+  have hqh : t.qh = m - (-(netC hotU coldU t0 t0) - minNet hotU coldU t0 rest) := by
+    have : siteTargets tol w (t0 :: rest) hotU coldU tz = .ok
+        { qh := m - (-(netC hotU coldU t0 t0) - minNet hotU coldU t0 rest),
+          qc := m - (-(netC hotU coldU t0 ((t0 :: rest).getLast (List.cons_ne_nil _ _))) - minNet hotU coldU t0 rest),
+          qr := tz.qr + (tz.qh - (m - (-(netC hotU coldU t0 t0) - minNet hotU coldU t0 rest))) } := by
+      have hhead : pt.hNet.head? = some (-(netC hotU coldU t0 t0) - minNet hotU coldU t0 rest) := by
+        rw [hc.hNet]; rfl
+      have hlast : pt.hNet.getLast? = some (-(netC hotU coldU t0 ((t0 :: rest).getLast (List.cons_ne_nil _ _))) - minNet hotU coldU t0 rest) := by
+        rw [hc.hNet, getLast?_map_cons]
+      simp only [siteTargets, siteUtilityColumn, hpt, hm, bind, Except.bind, pure, Except.pure,
+        List.head?_map, List.getLast?_map, hhead, hlast, Option.map_some]
+    rw [this] at ht
+    cases ht; rfl
+  refine ⟨t, ht, hbal, ?_⟩
+  intro x hx
+  have hmem : -(netC hotU coldU t0 x) - minNet hotU coldU t0 rest ∈ pt.hNet := by
+    rw [hc.hNet]; exact List.mem_map.mpr ⟨x, hx, rfl⟩
+  have := hle _ hmem
+  rw [netC_eq_deficit hotU coldU t0 x hhi_h hhi_c] at this
+  rw [hqh, z]
+  unfold deficit at this ⊢
+  linarith
+
+/-- **Lower bound** — indirect recovery through the utility system cannot beat direct recovery.
+    `hot`, `cold`: all process streams of the site (shifted); `hotU`, `coldU`: the utility segments the
+    zones ask for.  If above EVERY temperature the net utility heat covers the site's net process
+    deficit (`hfeas`: the zones' utility profiles are feasible, C04) and the duties close the balance
+    (`hclose`: C03 with C02), then the total-site targets are at least the site's own
+    direct-integration targets, on any pair of admissible grids. -/
+theorem ts_ge_di_of_feasible (tol w : Rat) (hw : 0 ≤ w) (htw : tol ≤ w)
+    (hot cold hotU coldU : List Seg) (tz : Targets)
+    (p0 : Rat) (prest : List Rat)
+    (hrp : InRange (cold ++ hot) ((p0 :: prest).getLast (List.cons_ne_nil _ _)) p0)
+    (hchp : ChainOK w (cold ++ hot) p0 prest)
+    (u0 : Rat) (urest : List Rat)
+    (hru : InRange (coldU ++ hotU) ((u0 :: urest).getLast (List.cons_ne_nil _ _)) u0)
+    (hchu : ChainOK w (coldU ++ hotU) u0 urest)
+    (hfeas : ∀ x : Rat, deficit hot cold x ≤ aboveAll hotU x - aboveAll coldU x)
+    (hclose : total hotU - total coldU = total cold - total hot) :
+    ∃ d t, directTargets tol w (p0 :: prest) hot cold = .ok d ∧
+      siteTargets tol w (u0 :: urest) hotU coldU tz = .ok t ∧ d.qh ≤ t.qh ∧ d.qc ≤ t.qc := by
+  obtain ⟨d, hd, _, ⟨xa, hxa⟩, _, hdqc, _⟩ := C01.di_targets_exact tol w hw htw hot cold p0 prest hrp hchp
+  obtain ⟨t, ht, hbal, hgrid⟩ := ts_qh_grid tol w hw htw hotU coldU tz u0 urest hru hchu
+  have hall := deficit_le_of_grid w hw coldU hotU u0 urest (InRange.swap hru) (ChainOK.swap urest u0 hchu) t.qh hgrid
+  have h1 : d.qh ≤ t.qh := by
+    have := hall xa
+    have := hfeas xa
+    unfold deficit at *
+    linarith
+  refine ⟨d, t, hd, ht, h1, ?_⟩
+  linarith
+
+/-- Feasibility is additive: if every zone's utility profile covers the zone's deficit above `x`,
+    the site's utility segments cover the site's deficit above `x`. -/
+theorem feasible_sum (zones : List (List Seg × List Seg × List Seg × List Seg)) (x : Rat)
+    (h : ∀ z ∈ zones, deficit z.1 z.2.1 x ≤ aboveAll z.2.2.1 x - aboveAll z.2.2.2 x) :
+    deficit (zones.map (·.1)).flatten (zones.map (·.2.1)).flatten x ≤
+      aboveAll (zones.map (·.2.2.1)).flatten x - aboveAll (zones.map (·.2.2.2)).flatten x := by
+  induction zones with
+  | nil => simp [deficit, aboveAll]
+  | cons z zs ih =>
+    have hz := h z (by simp)
+    have hr := ih (fun z' hz' => h z' (by simp [hz']))
+    simp only [List.map_cons, List.flatten_cons]
+    unfold deficit at *
+    rw [aboveAll_append, aboveAll_append, aboveAll_append, aboveAll_append]
+    linarith
+
+/-- Non-vacuity of the lower bound (the site of seeded change C09-glide-cap-max, shifted scale):
+    process deficit and the code's own utility segments at the top of the feed heater. -/
+example : deficit [⟨191, 200, 2000 / 9, 2000 / 9⟩] [⟨210, 250, 100, 100⟩, ⟨105, 155, 20, 20⟩] 210 = 4000 ∧
+    aboveAll [⟨294, 295, 318182 / 100, 318182 / 100⟩, ⟨155, 255, 181818 / 10000, 181818 / 10000⟩] 210
+      - aboveAll [⟨189, 190, 0, 0⟩] 210 ≥ 4000 := by
+  constructor <;> (simp only [deficit, aboveAll, above, List.map_cons, List.map_nil, List.sum_cons, List.sum_nil]; norm_num)
 
 /-- Total-site heat recovery = summed zonal recovery + hot utility saved. -/
 theorem ts_qr_formula (tol w : Rat) (T : List Rat) (hotU coldU : List Seg) (tz t : Targets)
